@@ -96,3 +96,72 @@ def window_selection(chk, prog, rule):
         chk.ok(rule, where, "window bounds", "both the start and the end date bound the selection")
     else:
         chk.violation(rule, where, "window bounds", "the selection does not bound the rows by both the start and the end date", loc=rw.loc())
+
+
+# --------------------------------------------------------------------------------------------- whole-row operations
+
+_ROW_OPS = {"dropna", "drop_duplicates", "duplicated"}
+
+
+def weather_frame_formals(prog):
+    """(function key, formal) pairs that receive the user's weather frame, followed positionally from `self.weather_df` in _initialize"""
+    from ..common import INIT_ROOT
+    ini = prog.func(INIT_ROOT)
+    out, work = set(), []
+    for c, t in prog.calls_in(ini):
+        if hasattr(t, "params"):
+            pos = t.params[1:] if (t.cls and t.params and t.params[0] in ("self", "cls")) else t.params
+            for i, a in enumerate(c.args):
+                if isinstance(a, ast.Attribute) and a.attr == "weather_df" and i < len(pos):
+                    work.append((t, pos[i]))
+    while work:
+        f, formal = work.pop()
+        if (f.key, formal) in out:
+            continue
+        out.add((f.key, formal))
+        for c, t in prog.calls_in(f):
+            if hasattr(t, "params"):
+                pos = t.params[1:] if (t.cls and t.params and t.params[0] in ("self", "cls")) else t.params
+                for i, a in enumerate(c.args):
+                    if isinstance(a, ast.Name) and a.id == formal and i < len(pos):
+                        work.append((t, pos[i]))
+                for k in c.keywords:
+                    if isinstance(k.value, ast.Name) and k.value.id == formal and k.arg in t.params:
+                        work.append((t, k.arg))
+    return out
+
+
+def whole_row_ops(chk, prog, rule: str) -> int:
+    """operations that drop / compare whole rows of the weather frame (dropna, drop_duplicates, duplicated) name the columns they look at
+    (`subset=`): without it an unrelated extra column with gaps decides which days survive"""
+    n = 0
+    formals = weather_frame_formals(prog)
+    chk.notes[rule + "_weather_frame_formals"] = sorted(f"{k}:{f}" for k, f in formals)
+    for key, formal in sorted(formals):
+        fi = prog.funcs[key]
+        where = f"{fi.module}:{fi.qualname}"
+        # locals holding (a row selection of) the frame: the formal, and names assigned from expressions rooted at such a name
+        frames = {formal}
+        changed = True
+        while changed:
+            changed = False
+            for a in walk_no_nested(fi.node):
+                if isinstance(a, ast.Assign) and isinstance(a.targets[0], ast.Name) and a.targets[0].id not in frames:
+                    v = a.value
+                    while isinstance(v, (ast.Call, ast.Attribute, ast.Subscript)):
+                        v = v.func if isinstance(v, ast.Call) else v.value
+                    if isinstance(v, ast.Name) and v.id in frames and not (isinstance(a.value, ast.Subscript) and isinstance(a.value.slice, ast.Constant)):
+                        frames.add(a.targets[0].id)
+                        changed = True
+        for c in walk_no_nested(fi.node):
+            if isinstance(c, ast.Call) and isinstance(c.func, ast.Attribute) and c.func.attr in _ROW_OPS:
+                recv = c.func.value
+                if isinstance(recv, ast.Name) and recv.id in frames:
+                    n += 1
+                    chk.fn(key)
+                    if any(k.arg == "subset" for k in c.keywords):
+                        chk.ok(rule, where, norm(c)[:80], "row operation restricted to named columns")
+                    else:
+                        chk.violation(rule, where, norm(c)[:80], f"{c.func.attr}() on the whole weather frame looks at every column: an unrelated extra column with "
+                                      "missing values removes days (shifts the positional day-of-season lookups) or raises", loc=fi.loc(c))
+    return n
